@@ -43,9 +43,10 @@ var w8Protected = []string{"/ui/api/status", "/ui/api/status/topics", "/ui/api/s
 func w8Gen(r *rand.Rand, prop, tier string) *simrt.Case {
 	c := &simrt.Case{Config: map[string]int64{"max_virtual_s": 3_000_000}}
 	ncl := 1 + r.IntN(4)
+	sharedAddr := r.IntN(2) == 0
 	for cl := 0; cl < ncl; cl++ {
 		n := 4 + r.IntN(16)
-		burst := r.IntN(3) == 0
+		burst := r.IntN(3) == 0 || (sharedAddr && r.IntN(2) == 0)
 		if burst {
 			n = 20 + r.IntN(30)
 		}
@@ -53,6 +54,9 @@ func w8Gen(r *rand.Rand, prop, tier string) *simrt.Case {
 			op := simrt.Op{Actor: cl, A: int64(r.IntN(3)), B: int64(r.IntN(6)), C: int64(r.IntN(len(w8Protected)))}
 			if burst {
 				op.A = int64(cl % 3) // one address hammering
+				if sharedAddr {
+					op.A = 0 // several connections of one address hammering at the same time
+				}
 			}
 			switch x := r.IntN(10); {
 			case burst && x < 8:
@@ -61,6 +65,9 @@ func w8Gen(r *rand.Rand, prop, tier string) *simrt.Case {
 				op.Kind, op.D = "login", int64(r.IntN(4))
 			case x < 7:
 				op.Kind = "get"
+				if r.IntN(4) == 0 {
+					op.Kind = "session" // the UI's "am I logged in?" poll, with whatever cookie the request carries
+				}
 			case x < 8:
 				op.Kind = "logout"
 			default:
@@ -107,6 +114,7 @@ func w8Run(t *testing.T, c *simrt.Case, prop string, keepTrace bool) simrt.Resul
 		tokens := map[string]*w8tok{}
 		var tokenList []string
 		var processed []w8login
+		xff := 0
 		actors := map[int][]simrt.Op{}
 		var ids []int
 		for _, op := range c.Program {
@@ -145,6 +153,13 @@ func w8Run(t *testing.T, c *simrt.Case, prop string, keepTrace bool) simrt.Resul
 					do := func(method, path, body string) *httptest.ResponseRecorder {
 						req := httptest.NewRequest(method, path, strings.NewReader(body))
 						req.RemoteAddr = addr
+						if op.Kind == "login" && op.C == 2 {
+							// a client-supplied forwarding header, different on every request: the peer address is
+							// what identifies "a client address"
+							xff++
+							req.Header.Set("X-Forwarded-For", fmt.Sprintf("198.51.100.%d, 10.9.9.9", xff%250))
+							req.Header.Set("X-Real-IP", fmt.Sprintf("198.51.100.%d", xff%250))
+						}
 						if cookie != "" {
 							req.AddCookie(&http.Cookie{Name: sessionCookieName, Value: cookie})
 						}
@@ -201,6 +216,11 @@ func w8Run(t *testing.T, c *simrt.Case, prop string, keepTrace bool) simrt.Resul
 								}
 							}
 						}
+					case "session":
+						// not a protected endpoint and not judged itself: what matters is that polling it changes
+						// nothing about which sessions the protected endpoints accept
+						_ = do(http.MethodGet, "/ui/api/auth/session", "")
+						s.Probe("c38.session-poll")
 					case "logout":
 						call := s.Step()
 						if tk := tokens[cookie]; tk != nil && tk.outCall == 0 {
